@@ -10,6 +10,7 @@
 From SQ Require Import lib.Base gen.Gen_C02.
 From SQ Require model.Sync proofs.SyncProofs model.IdleTimer model.RecoveryTimer proofs.IdleTimerProofs.
 From SQ Require model.Liveness proofs.LivenessProofs model.FlowSend.
+From SQ Require model.RxWake proofs.RxWakeProofs.
 Import Sync SyncProofs.
 Local Open Scope N_scope.
 
@@ -269,6 +270,49 @@ Theorem C02_blackhole_closes_both : forall idle es sa sb da db a1 ta a2 b1 tb b2
   IdleTimer.iclosed (snd (IdleTimerProofs.run2 idle (sa, sb) es)) = true.
 Proof. exact IdleTimerProofs.blackhole_closes_both. Qed.
 
+(* ---- reader wake-up (ReceiveStream::{on_data, on_reset, poll_request}) ---- *)
+
+(* Every history of in-window, in-order STREAM data / FIN / RESET_STREAM / rx requests with any low and
+   high watermarks: whenever a reader is parked (waker stored, no wake delivered), the stream is still
+   Receiving, no reset has arrived, fewer bytes are buffered than min(its remaining low watermark, the
+   flow-control watermark w/2) (one byte suffices when that is 0) -- hence the flow-control window can
+   still admit data: no state with a parked reader, a peer blocked on the stream window and no wake. *)
+Theorem C02_reader_woken : forall w ops L,
+  1 <= w -> RxWake.waiter (RxWakeProofs.reach w ops) = Some L ->
+  let s := RxWakeProofs.reach w ops in
+  RxWake.rst s = 0 /\ RxWake.ended s <> 2 /\
+  RxWake.blen s < N.max 1 (N.min L (w / 2)) /\
+  RxWake.sent s < RxWake.cons s + w.
+Proof. exact RxWakeProofs.reader_woken. Qed.
+
+Theorem C02_reader_woken_by_fin_or_reset : forall s n,
+  RxWake.ended s = 0 ->
+  RxWake.waiter (RxWake.rx_data s n true) = None /\ RxWake.waiter (RxWake.rx_reset s) = None.
+Proof. exact RxWakeProofs.reader_woken_by_fin_or_reset. Qed.
+
+(* "as soon as": the frame that brings the buffer to the threshold wakes the reader *)
+Theorem C02_reader_woken_at_threshold : forall s n L,
+  RxWake.ended s = 0 -> RxWake.waiter s = Some L -> 0 < N.min n (RxWake.room s) ->
+  let len := RxWake.sent s + N.min n (RxWake.room s) - RxWake.cons s in
+  1 <= len -> N.min L (RxWake.fc_watermark s) <= len ->
+  RxWake.waiter (RxWake.rx_data s n false) = None /\
+  RxWake.wakes (RxWake.rx_data s n false) = RxWake.wakes s + 1.
+Proof. exact RxWakeProofs.reader_woken_at_threshold. Qed.
+
+(* The stronger statement (a parked reader always has a wake coming while the stream can still
+   deliver, and is never parked once it cannot) is FALSE of the faithful model and of the
+   implementation: a request polled AFTER the FIN has been fully received with a low watermark above
+   the remaining bytes is parked (will_wake, status Finishing) and nothing can wake it.  The
+   executable judge rejects exactly this case (KNOWN_FINDINGS class
+   finished_stream_low_watermark_reader_parked); for that reason there is no unconditional
+   "judge accepts the model" theorem for the rxwake component -- correspondence and the judge run on
+   every generated case, the generator leaves this class out until it is listed as known. *)
+Theorem C02_reader_parked_on_finished_stream_refuted :
+  let s := RxWakeProofs.reach 100 [RxWake.RData 10 true; RxWake.RRead 20 20] in
+  RxWake.waiter s = Some 20 /\ RxWake.ended s = 1 /\ RxWake.blen s = 10 /\
+  RxWake.judge [100; 2; 10; 1; 20; 20]%Z (RxWake.run [100; 2; 10; 1; 20; 20]%Z) = false.
+Proof. exact RxWakeProofs.reader_parked_on_finished_stream_refuted. Qed.
+
 (* ---- non-vacuity ---- *)
 Example C02_example :
   (* threshold 3: transmit 5, lose it, retransmit, acknowledge -> quiescent with 5 acknowledged *)
@@ -314,3 +358,7 @@ Print Assumptions C02_eventual_delivery_instance.
 Print Assumptions C02_interest_reported_refuted.
 Print Assumptions C02_blocked_signalled.
 Print Assumptions C02_blackhole_closes_both.
+Print Assumptions C02_reader_woken.
+Print Assumptions C02_reader_woken_by_fin_or_reset.
+Print Assumptions C02_reader_woken_at_threshold.
+Print Assumptions C02_reader_parked_on_finished_stream_refuted.
